@@ -3,7 +3,7 @@
 import json, subprocess
 hooks_commits = subprocess.run("git -C /repo log --format=%H --grep='^verif hooks'", shell=True, capture_output=True, text=True).stdout.split()
 
-TECH_RE = "property-based testing: proptest-generated op histories (stateful, shrinking) + bounded-exhaustive enumeration with joint-state pruning against an executable reference model / invariant monitors"
+TECH_RE = "stateful property-based testing: proptest-generated op histories and task programs (shrinking, fixed seed) + bounded-exhaustive enumeration with joint-state pruning, checked after every op against an executable reference model / invariant monitors; regress histories replayed first; thorough tiers add libFuzzer+ASan and Miri where listed"
 NOTE = ("Trusted base: the harness interpreter and monitors (harness/src), the read-only snapshot hooks in /repo (cfg futures_intrusive_verif), "
         "rustc/std, proptest. Multi-threaded schedules are represented by sequential interleavings of whole API calls (each public operation is one "
         "critical section, DESIGN.md 1.1); memory-ordering bugs are out of reach. Absence is never established: evidence reports counts, classes and fixpoints.")
@@ -34,7 +34,7 @@ m = {
  "setup_cmd": "./check --build",
  "hooks": {"guard": "futures_intrusive_verif", "enable": "RUSTFLAGS=--cfg futures_intrusive_verif (set in harness/.cargo/config.toml and fuzz/.cargo/config.toml)",
            "baseline_off_cmd": "cd /repo && cargo test --workspace --no-fail-fast --offline", "source_commits": hooks_commits, "add_only": True},
- "engines": [{"name": "fi_verif", "path": "harness", "serves_properties": sorted(CHECKS.keys()), "kind_free_text": "Rust crate: history interpreter + property monitors per primitive, drivers: proptest random (R), bounded-exhaustive enumeration (E)"}],
+ "engines": [{"name": "fi_verif", "path": "harness", "serves_properties": sorted(CHECKS.keys()), "kind_free_text": "Rust crate: one history interpreter + property monitors per primitive (worlds); drivers: proptest random stateful generation with shrinking (R), bounded-exhaustive enumeration with joint-state pruning (E), generated task programs under a generated schedule (T, as worlds), enumerated type matrix (M), libFuzzer+ASan campaigns (F, thorough) and Miri on sampled histories (U, thorough); committed regress histories are replayed first"}],
  "checks": [],
  "notes": "see DESIGN.md; ./check <ID> --tier quick|thorough; known findings in known_findings.json",
  "not_applicable": [],
